@@ -93,15 +93,30 @@ func extract(repo, leanDir string) {
 		node.LockCovered(node.Func("HardNode", "Generate"), "n.mu.Lock()", "n.mu.Unlock()") == "defer"
 	clockUnderLock := gofacts.Before(genBody, "n.mu.Lock()", "_HookNow()") && strings.Count(genBody, "_HookNow()") == 1
 
+	// NewNode: the whole body must be one of the known forms (no free gaps)
 	nnBody := node.Body("", "NewNode")
+	nnForm := func(epochExpr string) string {
+		return gofacts.Norm(`{ var nodeMax int64 = (1 << _nodeBits) - 1 if node < 0 || node > nodeMax { return nil, errors.New("node.number.must.be.between.0.and." + strconv.FormatInt(nodeMax, 10)) } var n = &HardNode{} n.node = node n.epoch = ` + epochExpr + ` n.time, _, n.step = IDFields(min) return n, nil }`)
+	}
 	epochAcc := "unknown"
-	switch {
-	case gofacts.Has(nnBody, "n.epoch = time.Unix(_epoch/SDivMs, (_epoch%SDivMs)*MsDivNs).UnixNano() / MsDivNs"):
+	switch nnBody {
+	case nnForm("time.Unix(_epoch/SDivMs, (_epoch%SDivMs)*MsDivNs).UnixNano() / MsDivNs"):
 		epochAcc = "unixNano"
-	case gofacts.Has(nnBody, "n.epoch = time.Unix(_epoch/SDivMs, (_epoch%SDivMs)*MsDivNs).UnixMilli()"),
-		gofacts.Has(nnBody, "n.epoch = _epoch "):
+	case nnForm("time.Unix(_epoch/SDivMs, (_epoch%SDivMs)*MsDivNs).UnixMilli()"), nnForm("_epoch"):
 		epochAcc = "unixMilli"
 	}
+	// UseEpoch: the option through which Setup receives the epoch
+	sfFile := gofacts.MustLoad(repo, "idgen/snowflake/snowflake.go")
+	setupAcc := "unknown"
+	switch sfFile.Body("", "UseEpoch") {
+	case gofacts.Norm("{ return func(o *_Option) { o.epoch = t.UnixNano() / int64(time.Millisecond) } }"):
+		setupAcc = "unixNano"
+	case gofacts.Norm("{ return func(o *_Option) { o.epoch = t.UnixMilli() } }"):
+		setupAcc = "unixMilli"
+	}
+	// GenID of both nano types forwards the clock reading to GenIDByTS, nothing else
+	genIDForm := gofacts.Norm("{ var ts = time.Now().UnixNano() return n.GenIDByTS(ts) }")
+	genIDForwards := nn.Body("UnixNanoID", "GenID") == genIDForm && nn.Body("UnixNanoNoLockID", "GenID") == genIDForm
 	const rangeCheck = "var nodeMax int64 = (1 << _nodeBits) - 1 if node < 0 || node > nodeMax { return nil,"
 	newNodeRange := strings.HasPrefix(nnBody, "{ "+rangeCheck)
 	newNodeSeeds := gofacts.Has(nnBody, "var n = &HardNode{} n.node = node") &&
@@ -132,10 +147,10 @@ func extract(repo, leanDir string) {
 	b.WriteString("import Nv.Model.C06\nset_option linter.unusedVariables false\n")
 	b.WriteString("/-! GENERATED by `c06 extract` from idgen/snowflake/{snowflake,node,mono}.go and idgen/nano/nano.go — do not edit. -/\n")
 	b.WriteString("namespace Nv.Gen.C06\n")
-	fmt.Fprintf(&b, "def cfg : Nv.C06.Cfg := ⟨.%s, .%s⟩\n", nowAcc, epochAcc)
-	fmt.Fprintf(&b, "def facts : Nv.C06.Facts := ⟨%s, %s, %s, %s, %s, %s, %s, %s, %s, %s⟩\n\n", stepBits,
+	fmt.Fprintf(&b, "def cfg : Nv.C06.Cfg := ⟨.%s, .%s, .%s⟩\n", nowAcc, epochAcc, setupAcc)
+	fmt.Fprintf(&b, "def facts : Nv.C06.Facts := ⟨%s, %s, %s, %s, %s, %s, %s, %s, %s, %s, %s⟩\n\n", stepBits,
 		gofacts.LeanBool(hardLocked), gofacts.LeanBool(clockUnderLock), gofacts.LeanBool(newNodeRange), gofacts.LeanBool(newNodeSeeds),
-		gofacts.LeanBool(monoLocked), gofacts.LeanBool(monoRange), gofacts.LeanBool(monoShape), gofacts.LeanBool(nanoLocked), gofacts.LeanBool(nanoSame))
+		gofacts.LeanBool(monoLocked), gofacts.LeanBool(monoRange), gofacts.LeanBool(monoShape), gofacts.LeanBool(nanoLocked), gofacts.LeanBool(nanoSame), gofacts.LeanBool(genIDForwards))
 	b.WriteString(sf.Emit())
 	b.WriteString(np.Emit())
 	all := append(go2lean.SortedErrs(errs), go2lean.SortedErrs(nerrs)...)
@@ -172,8 +187,8 @@ func extract(repo, leanDir string) {
 	if err := gofacts.WriteIfChanged(filepath.Join(leanDir, "Nv/Gen/C06.lean"), b.String()); err != nil {
 		fail(err)
 	}
-	fmt.Printf("extract C06: nowAcc=%s epochAcc=%s stepBits=%s facts=%v,%v,%v,%v,%v,%v,%v,%v,%v untranslatable=%v\n", nowAcc, epochAcc, stepBits,
-		hardLocked, clockUnderLock, newNodeRange, newNodeSeeds, monoLocked, monoRange, monoShape, nanoLocked, nanoSame, all)
+	fmt.Printf("extract C06: nowAcc=%s epochAcc=%s setupAcc=%s stepBits=%s facts=%v,%v,%v,%v,%v,%v,%v,%v,%v,%v untranslatable=%v\n", nowAcc, epochAcc, setupAcc, stepBits,
+		hardLocked, clockUnderLock, newNodeRange, newNodeSeeds, monoLocked, monoRange, monoShape, nanoLocked, nanoSame, genIDForwards, all)
 }
 
 // ---------------------------------------------------------------- runner
@@ -218,7 +233,9 @@ type world struct {
 	hasPrev  bool
 	lastT    int64 // largest timestamp field seen on this node (the seed's included)
 	prevSeed bool  // prev is the seed given to NewNode (restart clause), not an id of this node
-	tainted  bool  // a call left the timestamp width: the property's hypothesis no longer holds for this node
+	beyond   bool  // a clock reading / the internal time left the timestamp width of the layout: violations from here on are
+	// the known limit of the 41/42/43-bit format and are reported under one key (clock-beyond-timestamp-width)
+	skip bool // the node was seeded with a negative number (not an id): outside the property altogether
 
 	nanoL  *nano.UnixNanoID
 	nanoN  *nano.UnixNanoNoLockID
@@ -249,6 +266,8 @@ func (w *world) hardHit(site, what, msg string, ms int64) {
 		return
 	}
 	switch {
+	case w.beyond:
+		w.hit("HardNode.Generate", "clock-beyond-timestamp-width", what+": "+msg+fmt.Sprintf(" [a clock reading or the node's time is at/after the end of the %d-bit timestamp width: `<<` drops the high bits]", w.width()))
 	case w.epoch > unixNanoMaxMs || w.epoch < -unixNanoMaxMs:
 		w.hit("NewNode", "epoch-outside-unixnano-range", what+": "+msg+fmt.Sprintf(" [epoch %d ms is outside the int64-nanosecond range]", w.epoch))
 	case ms > unixNanoMaxMs || ms < -unixNanoMaxMs:
@@ -272,8 +291,9 @@ func fieldsOf(id int64) (t, n, s int64) { return snowflake.IDFields(id) }
 
 // checkHard: the property restated on one returned id (monitor; independent of the Lean model).
 // rel = clock reading in ms relative to the configured epoch.
-// preTaint: the property's hypothesis for the next ncalls calls at clock ms — the clock offset and the internal
-// time (which runs ahead of the clock by one per 4096 calls in a millisecond) stay inside the timestamp width.
+// preTaint: does the property's width hypothesis hold for the next ncalls calls at clock ms — the clock offset and the
+// internal time (which runs ahead of the clock by one per 4096 calls in a millisecond) inside the timestamp width?
+// If not, the node is marked `beyond`: the monitors stay on, their hits go to the one known-limit key.
 func (w *world) preTaint(ms int64, ncalls int) {
 	W := w.width()
 	rel := ms - w.epoch
@@ -282,28 +302,23 @@ func (w *world) preTaint(ms int64, ncalls int) {
 		top = rel
 	}
 	if ms < -(1<<62) || ms > 1<<62 || top+int64(ncalls)/4096+2 >= int64(1)<<W {
-		w.tainted = true
+		w.beyond = true
 	}
 }
 
 func (w *world) checkHard(id, ms int64, site string) {
 	W := w.width()
 	rel := ms - w.epoch
-	// hypothesis of the property: clock offset and internal time inside the timestamp width
 	if rel >= int64(1)<<W || ms < -(1<<62) || ms > 1<<62 {
-		w.tainted = true
+		w.beyond = true
 	}
 	if w.hasPrev {
 		if pt, _, _ := fieldsOf(w.prev); w.prev < 0 || pt+1 >= int64(1)<<W {
-			w.tainted = true
+			w.beyond = true
 		}
 	}
-	if w.tainted {
-		w.prev, w.prevSeed, w.hasPrev = id, false, true
-		return
-	}
 	t, n, _ := fieldsOf(id)
-	if len(w.hits) >= 6 { // enough reported for this script; keep the bookkeeping only
+	if w.skip || len(w.hits) >= 6 { // outside the property / enough reported for this script: bookkeeping only
 		if t > w.lastT {
 			w.lastT = t
 		}
@@ -324,7 +339,7 @@ func (w *world) checkHard(id, ms int64, site string) {
 		w.hardHit(site, "timestamp-before-clock", fmt.Sprintf("clock reads %d ms (epoch+%d) but id %d carries timestamp epoch+%d under layout nodeBits=%d", ms, rel, id, t, w.nb), ms)
 	}
 	if id < 0 || t >= int64(1)<<W-1 {
-		w.tainted = true // the next call may carry out of the width
+		w.beyond = true // the next call may carry out of the width
 	}
 	if t > w.lastT {
 		w.lastT = t
@@ -472,10 +487,15 @@ func (w *world) run(line string) (out string) {
 		w.restore = append(w.restore, snowflake.VerifSetConfig(e, uint8(nb), f[3] == "1"))
 		return "ok"
 	}
+	if f[0] == "setup" {
+		return w.setup(f)
+	}
 	if !w.ready {
 		return "bad-op"
 	}
 	switch f[0] {
+	case "gid":
+		return w.gid(f)
 	case "hard":
 		if len(f) != 3 {
 			return "bad-op"
@@ -507,7 +527,7 @@ func (w *world) run(line string) (out string) {
 		// the restart clause speaks of a node restarted with the last id *it* issued: a non-negative id carrying its node
 		// number. Any other seed only fixes where the node starts (when it is non-negative and inside the width).
 		w.prev, w.prevSeed, w.hasPrev = min, true, min >= 0 && mn == node
-		w.tainted = min < 0
+		w.skip, w.beyond = min < 0, false
 		w.lastT, _, _ = fieldsOf(min)
 		return "ok"
 	case "g", "burst", "par":
@@ -557,11 +577,11 @@ func (w *world) run(line string) (out string) {
 				return "timeout"
 			}
 			all := mergeSorted(per)
-			if !w.tainted {
+			if !w.skip {
 				if hasDup(all) {
-					w.hit("HardNode.Generate", "duplicate-under-concurrency", fmt.Sprintf("%d goroutines × %d calls returned a duplicate id", g, k))
+					w.hardHit("HardNode.Generate", "duplicate-under-concurrency", fmt.Sprintf("%d goroutines × %d calls returned a duplicate id", g, k), ms)
 				} else if !perThreadIncreasing(per) {
-					w.hit("HardNode.Generate", "not-increasing", fmt.Sprintf("%d goroutines × %d calls: one goroutine saw a non-increasing pair", g, k))
+					w.hardHit("HardNode.Generate", "not-increasing", fmt.Sprintf("%d goroutines × %d calls: one goroutine saw a non-increasing pair", g, k), ms)
 				}
 			}
 			prev, hasPrev := w.last, w.hasLast
@@ -688,14 +708,34 @@ func (w *world) run(line string) (out string) {
 			return "timeout"
 		}
 		all := mergeSorted(per)
-		if hasDup(all) {
-			w.hit("MonoNode.Generate", "duplicate-under-concurrency", fmt.Sprintf("%d goroutines × %d calls returned a duplicate id", g, n))
-		} else if !perThreadIncreasing(per) {
-			w.hit("MonoNode.Generate", "not-increasing", fmt.Sprintf("%d goroutines × %d calls: one goroutine saw a non-increasing pair", g, n))
-		} else if i, why := monoAcceptGo(node, all); i >= 0 {
-			w.hit("MonoNode.Generate", why, fmt.Sprintf("id #%d (%d after %d) of the merged trace is not a step of any non-decreasing clock", i, all[i], all[max(i-1, 0)]))
+		wraps := 0
+		for _, id := range all {
+			if _, _, st := fieldsOf(id); st == 4095 {
+				wraps++
+			}
 		}
-		return w.monoOracle(node, all)
+		monoHit := func(what, msg string) {
+			// the real clock is beyond the timestamp width of the layout for this epoch (e.g. epoch 1970 + 41 bits ends in 2039)
+			if rel := time.Now().UnixMilli() - w.epoch; rel+2 >= int64(1)<<w.width() || rel < 0 {
+				w.hit("MonoNode.Generate", "clock-beyond-timestamp-width", what+": "+msg+fmt.Sprintf(" [the clock is %d ms from the epoch, outside the %d-bit timestamp width]", rel, w.width()))
+				return
+			}
+			w.hit("MonoNode.Generate", what, msg)
+		}
+		if hasDup(all) {
+			monoHit("duplicate-under-concurrency", fmt.Sprintf("%d goroutines × %d calls returned a duplicate id", g, n))
+		} else if !perThreadIncreasing(per) {
+			monoHit("not-increasing", fmt.Sprintf("%d goroutines × %d calls: one goroutine saw a non-increasing pair", g, n))
+		} else if i, why := monoAcceptGo(node, all); i >= 0 {
+			monoHit(why, fmt.Sprintf("id #%d (%d after %d) of the merged trace is not a step of any non-decreasing clock", i, all[i], all[max(i-1, 0)]))
+		}
+		if r := w.monoOracle(node, all); r != "accepted" {
+			return r
+		}
+		if wraps > 0 {
+			return "accepted-wrap" // the step counter reached 4095 inside one millisecond: the wrap-and-spin branch ran
+		}
+		return "accepted-nowrap"
 	case "nheld":
 		return w.nheld(f)
 	case "hheld":
@@ -732,6 +772,93 @@ func (w *world) run(line string) (out string) {
 	return "bad-op"
 }
 
+
+// setup: `setup <epochMs> <mode> <lowest>` — configuration through the package's own path. The globals are first put back
+// to the package defaults (hook), then Setup(UseEpoch(t), UseNodeMode(mode), [NodeAtLowest()]) runs for real.
+func (w *world) setup(f []string) string {
+	if len(f) != 4 {
+		return "bad-op"
+	}
+	e, ok := pI64(f[1])
+	mode, ok2 := pI64(f[2])
+	if !ok || !ok2 || f[2][0] == '-' || mode > 255 || (f[3] != "0" && f[3] != "1") {
+		return "bad-op"
+	}
+	w.close()
+	hits := w.hits
+	*w = world{hits: hits}
+	w.restore = append(w.restore, snowflake.VerifSetConfig(1609430400000, 10, false)) // the package defaults
+	opts := []snowflake.Option{snowflake.UseEpoch(time.UnixMilli(e)), snowflake.UseNodeMode(snowflake.NodeBitsMode(mode))}
+	if f[3] == "1" {
+		opts = append(opts, snowflake.NodeAtLowest())
+	}
+	snowflake.Setup(opts...)
+	ge, gnb, gnal := snowflake.VerifConfig()
+	w.ready, w.epoch, w.nb, w.nal = true, ge, gnb, gnal
+	// monitors: "any epoch", node widths 8/9/10, node-at-lowest on/off — as configured
+	if ge != e {
+		if e > unixNanoMaxMs || e < -unixNanoMaxMs {
+			w.hit("UseEpoch", "epoch-outside-unixnano-range", fmt.Sprintf("Setup(UseEpoch(%d ms)) stored the epoch %d [outside the int64-nanosecond range]", e, ge))
+		} else {
+			w.hit("UseEpoch", "epoch-mismatch", fmt.Sprintf("Setup(UseEpoch(%d ms)) stored the epoch %d", e, ge))
+		}
+	}
+	wantNb := uint8(10)
+	if mode == 8 || mode == 9 {
+		wantNb = uint8(mode)
+	}
+	if gnb != wantNb {
+		w.hit("UseNodeMode", "width-not-clamped", fmt.Sprintf("Setup(UseNodeMode(%d)) left node width %d", mode, gnb))
+	}
+	if gnal != (f[3] == "1") {
+		w.hit("NodeAtLowest", "flag", fmt.Sprintf("node-at-lowest asked %s, configured %v", f[3], gnal))
+	}
+	b := 0
+	if gnal {
+		b = 1
+	}
+	if gnb != 8 && gnb != 9 && gnb != 10 {
+		w.ready = false // no layout of the package: nothing else is defined
+	}
+	return fmt.Sprintf("epoch=%d nb=%d nal=%d", ge, gnb, b)
+}
+
+// gid: `gid <cur> <lock> <n>` — GenID (the public entry point: real clock → GenIDByTS) n times on a fresh generator.
+// Trace acceptance: strictly increasing, above the start value, and not below a clock reading taken before the call.
+func (w *world) gid(f []string) string {
+	if len(f) != 4 || (f[2] != "0" && f[2] != "1") {
+		return "bad-op"
+	}
+	cur, ok := pI64(f[1])
+	n, ok2 := pCount(f[3], 100000)
+	if !ok || !ok2 {
+		return "bad-op"
+	}
+	gen := nano.NewUnixNanoID(cur).GenID
+	site := "UnixNanoID.GenID"
+	if f[2] == "0" {
+		gen = nano.NewUnixNanoNoLockID(cur).GenID
+		site = "UnixNanoNoLockID.GenID"
+	}
+	if cur > 1<<62 {
+		return "accepted" // next to MaxInt64: outside the clause (counter wrap)
+	}
+	prev := cur
+	for i := 0; i < n; i++ {
+		before := time.Now().UnixNano()
+		id := gen()
+		if id <= prev {
+			w.hit(site, "not-increasing", fmt.Sprintf("call #%d returned %d after %d", i, id, prev))
+			break
+		}
+		if id < before {
+			w.hit(site, "below-clock", fmt.Sprintf("call #%d returned %d, the clock read %d before the call", i, id, before))
+			break
+		}
+		prev = id
+	}
+	return "accepted"
+}
 
 // ---------------------------------------------------------------- deterministic concurrency classes
 
@@ -920,7 +1047,10 @@ func (w *world) hheld(f []string) string {
 	if top+3 >= int64(1)<<W {
 		inw = false
 	}
-	if inw {
+	if min >= 0 && node >= 0 {
+		saved := w.beyond
+		w.beyond = !inw
+		defer func() { w.beyond = saved }()
 		what := ""
 		all := append(append([]int64{}, ids...), last)
 		if !allDistinct(all) {
@@ -1049,9 +1179,12 @@ func (w *world) hstress(f []string) string {
 		return "timeout"
 	}
 	rel := ms - w.epoch
-	if ms < -(1<<62) || ms > 1<<62 || rel < 8 || rel+int64(g*k) >= int64(1)<<w.width() {
-		return "ok" // outside the width hypothesis
+	if ms < -(1<<62) || ms > 1<<62 || rel < 8 {
+		return "ok" // before the epoch: nothing to say about the timestamps
 	}
+	saved := w.beyond
+	w.beyond = rel+int64(g*k) >= int64(1)<<w.width()
+	defer func() { w.beyond = saved }()
 	all := mergeSorted(per)
 	if hasDup(all) {
 		w.hardHit("HardNode.Generate", "duplicate-under-concurrency", fmt.Sprintf("%d goroutines × %d calls under a moving clock returned a duplicate id", g, k), ms)
@@ -1148,6 +1281,14 @@ func fixedCases() []corr.Case {
 		mk("held-hard", "cfg 1609430400000 10 0", "hheld 3 0 1700000000001 1700000000005 1700000000003 1700000000001",
 			"hheld 1023 0 1700000000000 1700000000000 1700000000000 1700000000000 1700000000000", "hheld 7 379876435579383811 1600000000000 1600000000001 1600000000000", "hheld 1024 0 5 5 5"),
 		mk("stress", "cfg 1609430400000 10 0", "nstress 1000 8 400", "hstress 5 1700000000000 8 400", "hstress 1024 1700000000000 2 2"),
+		// the known limit of the format: a far-future reading (epoch + 2^41 ms under Node1024) — later ids are lower
+		mk("beyond-width", "cfg 1609430400000 10 0", "hard 1 0", "g 1700000000000 0", "g 3808453655552 0", "g 1700000000001 0"),
+		mk("beyond-width-fresh", "cfg 1609430400000 10 0", "hard 1 0", "g 6007476911104 0"),
+		mk("beyond-width-mono", "cfg -1000000000000 10 0", "mono 1 100 1"),
+		// the package's own configuration path (not the hook): any epoch, node widths clamped to 8/9/10
+		mk("setup", "setup 1609430400000 10 0", "hard 1 0", "g 1700000000000 0", "setup 946684800000 8 1", "hard 255 0", "g 1700000000000 5", "state",
+			"setup 10413792000000 9 0", "hard 1 0", "g 10413792000005 0", "setup 0 11 0", "setup 5 0 1", "setup 5 255 0", "setup 5 256 0", "setup 5 9 2", "setup -9223372036855 10 0"),
+		mk("genid", "cfg 0 10 0", "gid 0 1 5000", "gid 0 0 5000", "gid 4102444800000000000 1 3000", "gid 1 2 5", "gid 9223372036854775807 1 3"),
 		mk("monocheck", "cfg 1609430400000 10 0", "monocheck 1 4194308096 4194308097 8388612096", "monocheck 1 4194308096 4194308098", "monocheck 1 8388612096 4194308096", "monocheck 1024"),
 		mk("malformed", "cfg 1 10 0", "g 1 0", "cfg 1 7 0", "cfg 1 8 2", "g 1 0", "hard 1", "hard 1 $last", "hard 1_0 0", "hard +1 0", "hard 1 0", "g 1 1000000", "g 1 -1",
 			"burst 1 0 0", "burst 1 0 100001", "par 1 0 65 1", "n 5", "nano 9223372036854775808", "state x", "", "xyzzy 1 2"),
@@ -1288,7 +1429,9 @@ func genNano(r *rng.R) corr.Case {
 
 func genMono(r *rng.R) corr.Case {
 	nb := r.PickInt(8, 9, 10)
-	epoch := r.PickI64(ms2021, ms2000, 0, time.Now().UnixMilli()-int64(r.Intn(3)))
+	// epochs a fixed distance in the past (script text depends on the seed only); a MonoNode whose clock is outside the
+	// timestamp width of the layout (epoch + 2^41 ms ends in 2039 for epoch 1970) is the known limit, reported as such
+	epoch := r.PickI64(ms2021, ms2000, 1500000000000)
 	node := r.Intn(1 << nb)
 	g := r.PickInt(1, 1, 2, 4, 8)
 	n := r.PickInt(50, 5000, 12000) / g
@@ -1296,6 +1439,24 @@ func genMono(r *rng.R) corr.Case {
 		n = 1
 	}
 	return corr.Case{Tag: "mono-real-clock", Lines: []string{fmt.Sprintf("cfg %d %d %d", epoch, nb, r.Intn(2)), fmt.Sprintf("mono %d %d %d", node, n, g)}}
+}
+
+// the package's own configuration path, then a short clock script under the configuration it produced
+func genSetup(r *rng.R) corr.Case {
+	epoch := r.PickI64(ms2021, ms2000, 0, 1, -1, 4102444800000, 9214646400000 /*2262-01-01*/, 9223372036854, 9223372036855, 10413792000000 /*2300*/, -9223372036855, int64(r.U64()%(1<<44)))
+	mode := r.PickInt(8, 9, 10, 0, 7, 11, 12, 255, r.Intn(256))
+	lines := []string{fmt.Sprintf("setup %d %d %d", epoch, mode, r.Intn(2))}
+	if r.Chance(2, 3) {
+		node := r.Intn(256)
+		rel := int64(r.U64() % (1 << 40))
+		lines = append(lines, fmt.Sprintf("hard %d 0", node), fmt.Sprintf("g %d 0", epoch+rel), fmt.Sprintf("burst %d 0 %d", epoch+rel, r.Range(1, 20)), "state")
+	}
+	return corr.Case{Tag: "setup-path", Lines: lines}
+}
+
+func genGenID(r *rng.R) corr.Case {
+	cur := r.PickI64(0, time.Date(2024, 1, 1, 0, 0, 0, 0, time.UTC).UnixNano(), 1<<62, 4102444800000000000 /* 2100: ahead of the clock */)
+	return corr.Case{Tag: "genid-real-clock", Lines: []string{"cfg 0 10 0", fmt.Sprintf("gid %d %d %d", cur, r.Intn(2), r.Range(100, 5000))}}
 }
 
 // deterministic concurrency scripts: callers queued on the generator's lock with chosen timestamps / clock readings
@@ -1373,7 +1534,7 @@ func genStress(r *rng.R) corr.Case {
 }
 
 func genMalformed(r *rng.R) corr.Case {
-	toks := []string{"cfg", "hard", "g", "burst", "par", "state", "nano", "n", "nburst", "npar", "mono", "monocheck", "nheld", "hheld", "nstress", "hstress", "x", "$last", "0", "1", "-1", "8", "10", "11",
+	toks := []string{"cfg", "hard", "g", "burst", "par", "state", "nano", "n", "nburst", "npar", "mono", "monocheck", "nheld", "hheld", "nstress", "hstress", "setup", "gid", "x", "$last", "0", "1", "-1", "8", "10", "11",
 		"4096", "99999999999999999999", "1e3", "0x10", "+3", "", "1_0", "9223372036854775807", "-9223372036854775808"}
 	lines := []string{"cfg 1609430400000 10 0", "hard 1 0", "nano 0"}
 	for i, n := 0, r.Range(3, 10); i < n; i++ {
@@ -1407,6 +1568,10 @@ func spec() corr.Spec {
 			// deterministic concurrency (held lock): a few in quick, every third case in the search after a broken tie;
 			// the plain multi-goroutine stress in thorough and search
 			switch {
+			case i%20 == 3:
+				return genSetup(r)
+			case i%40 == 9:
+				return genGenID(r)
 			case tier == "search" && i%3 == 0, tier != "search" && i%12 == 5:
 				return genHeld(r)
 			case tier == "search" && i%10 == 1, tier == "thorough" && i%25 == 7:
@@ -1428,7 +1593,7 @@ func spec() corr.Spec {
 		NonTrivial: func(c corr.Case, r corr.Result) bool {
 			for _, l := range c.Lines {
 				f := strings.Fields(l)
-				if len(f) > 0 && (f[0] == "nheld" || f[0] == "hheld" || f[0] == "nstress" || f[0] == "hstress" || f[0] == "g" || f[0] == "burst" || f[0] == "par" || f[0] == "n" || f[0] == "nburst" || f[0] == "npar" || f[0] == "mono") {
+				if len(f) > 0 && (f[0] == "gid" || f[0] == "nheld" || f[0] == "hheld" || f[0] == "nstress" || f[0] == "hstress" || f[0] == "g" || f[0] == "burst" || f[0] == "par" || f[0] == "n" || f[0] == "nburst" || f[0] == "npar" || f[0] == "mono") {
 					return true
 				}
 			}
@@ -1451,6 +1616,10 @@ func spec() corr.Spec {
 				return "C06:corr:HardNode.Generate"
 			case "hard":
 				return "C06:corr:NewNode"
+			case "setup":
+				return "C06:corr:Setup"
+			case "gid":
+				return "C06:corr:UnixNanoID.GenID"
 			case "hheld", "hstress":
 				return "C06:corr:HardNode.Generate:concurrent"
 			case "nheld", "nstress":
@@ -1458,6 +1627,20 @@ func spec() corr.Spec {
 			case "n", "nburst", "npar", "nano", "nanonl":
 				return "C06:corr:UnixNanoID.GenIDByTS"
 			case "mono", "monocheck":
+				// a MonoNode whose (real) clock lies outside the timestamp width of the configured layout/epoch: the known limit
+				if op == "mono" && strings.HasPrefix(got, "rejected") {
+					for i := line - 1; i >= 0; i-- {
+						g := strings.Fields(c.Lines[i])
+						if len(g) == 4 && g[0] == "cfg" {
+							e, ok := pI64(g[1])
+							nb, _ := strconv.Atoi(g[2])
+							if rel := time.Now().UnixMilli() - e; ok && nb >= 8 && nb <= 10 && (rel < 0 || rel+2 >= int64(1)<<uint(51-nb)) {
+								return "C06:MonoNode.Generate:clock-beyond-timestamp-width"
+							}
+							break
+						}
+					}
+				}
 				return "C06:corr:MonoNode.Generate"
 			}
 			return "C06:corr:" + op
@@ -1467,7 +1650,9 @@ func spec() corr.Spec {
 			"sync.Mutex makes each Generate / GenIDByTS body one atomic step (lock-coverage facts are regenerated)",
 			"Go's monotonic clock never decreases (MonoNode is proved increasing only under non-decreasing readings; a counter-example for a decreasing reading is proved)",
 			"time.Time.UnixNano wraps modulo 2^64 for instants outside 1678..2262; time.Time.UnixMilli is exact (both validated by the correspondence, not proved)",
-			"MonoNode's clock cannot be injected: its runs are checked as traces accepted by the model, not compared value by value",
+			"MonoNode's clock cannot be injected: its runs are checked as traces accepted by the model, not compared value by value; whether the wrap-and-spin branch was reached in this run is recorded in output_kinds (accepted-wrap / accepted-nowrap)",
+			"timestamp width: the theorems assume the clock offset and the node's time stay inside the 41/42/43-bit timestamp field (InWidth); beyond it the unchanged code returns lower ids — reported under the key C06:HardNode.Generate:clock-beyond-timestamp-width (witness_clock_beyond_width), not switched off",
+			"GenID / mono run on the real clock of the host; atomicity of the critical sections rests on the lock facts plus the deterministic held-lock scripts (no transition system for sync.Mutex)",
 		},
 		Trusted: []string{"go/lib/go2lean (kernel translator: HardNode.Generate, figureShift, IDFields, GenIDByTS)", "time.Time arithmetic of the Go standard library (modelled)"},
 	}
